@@ -494,10 +494,15 @@ func genCC(r *rand.Rand) []string {
 	return append(ops, "ccdump")
 }
 
-func gen(r *rand.Rand, thorough bool, i int) []string {
+func gen(r *rand.Rand, thorough bool, i int) (ops []string) {
 	if i%6 == 5 {
 		return genCC(r)
 	}
+	defer func() {
+		if p := recover(); p != nil {
+			ops = append(ops, "generr panic "+strings.ReplaceAll(fmt.Sprint(p), " ", "_"))
+		}
+	}()
 	engine.Setup()
 	salt := fmt.Sprintf("s%d", r.Int63())
 	// rounds around a multiple of 100, where pruneClientState rounds its version down to
@@ -505,7 +510,8 @@ func gen(r *rand.Rand, thorough bool, i int) []string {
 	if r.Intn(5) == 0 {
 		round0 = int64(r.Intn(3))
 	}
-	ops := []string{fmt.Sprintf("hist %s %d", salt, round0)}
+	ops = []string{fmt.Sprintf("hist %s %d", salt, round0)}
+	prevT := map[string]bool{}
 	sim := &trieSim{salt: salt, base: generatorDB(), sc: statecache.NewStateCache()}
 	sim.genesis(round0)
 	nblocks := 4 + r.Intn(26)
@@ -571,6 +577,26 @@ func gen(r *rand.Rand, thorough bool, i int) []string {
 			return append(ops, "generr iterate "+strings.ReplaceAll(err.Error(), " ", "_"))
 		}
 		ops = append(ops, fmt.Sprintf("fin N:%s D:%s T:%s", setStr(n), setStr(d), setStr(t)))
+		{
+			// a state node that is neither inherited nor about to be persisted: the trie is damaged (the known defect
+			// after an aborted delete); what it does from here on is undefined (it may even panic): end the history
+			nm := map[string]bool{}
+			for _, h := range n {
+				nm[h] = true
+			}
+			damaged := false
+			cur := map[string]bool{}
+			for _, h := range t {
+				cur[h] = true
+				if !prevT[h] && !nm[h] {
+					damaged = true
+				}
+			}
+			if damaged {
+				return append(ops, fmt.Sprintf("check %d", rd))
+			}
+			prevT = cur
+		}
 		sim.seal()
 		if err := sim.state.SaveChanges(context.Background(), sim.base, false); err != nil {
 			return append(ops, "generr save "+strings.ReplaceAll(err.Error(), " ", "_"))
